@@ -259,8 +259,17 @@ func (s *sim) observe() string {
 	// written or dropped is decided by the order in which two goroutines of
 	// the peer run; its done signal arrives either way.
 	_ = nWire
-	return fmt.Sprintf("conn=%v vk=%v va=%v est=%v busy=%d done=%d parked=%d%s",
-		connected, s.p.VersionKnown(), s.p.VerAckReceived(), s.established(), nBusy, nDone, s.y.nParked(), apps)
+	// Also not in the log once the peer is shutting down or a goroutine is
+	// parked at a yield site: how many done signals have arrived SO FAR.  The
+	// peer's handlers drain their queues from selects with several ready
+	// cases (quit, send-done, output queue), which the Go runtime resolves at
+	// random; every signal still arrives (the final line and O5 count them).
+	done := "-"
+	if connected && s.y.nParked() == 0 {
+		done = fmt.Sprint(nDone)
+	}
+	return fmt.Sprintf("conn=%v vk=%v va=%v est=%v busy=%d done=%s parked=%d%s",
+		connected, s.p.VersionKnown(), s.p.VerAckReceived(), s.established(), nBusy, done, s.y.nParked(), apps)
 }
 
 func (s *sim) scriptString() string {
